@@ -304,6 +304,10 @@ func (e *Engine) load(s *State, p Ptr) Value {
 	if p.obj == 0 {
 		panic(goPanic{"runtime error: invalid memory address or nil pointer dereference"})
 	}
+	if p.obj < 0 && e.uninitGlobal[-p.obj] {
+		g := e.globalByID[-p.obj]
+		unsup("read of %s.%s, which is initialised by a package init the engine does not execute", g.Pkg.Pkg.Path(), g.Name())
+	}
 	o := e.obj(s, p.obj)
 	v := nav(o.v, p.path)
 	if p.sym != nil {
